@@ -5,8 +5,12 @@ FAMILY = dict(send_units=1,  # C13_gs3_send_bound: the data request is paid for 
     name="gs3", nargs=2, gen="gs3", retries=1, port=0, decode_property="C04", entry="gs3",
     describe=("GameSpy 3: variables in random order with optional minplayers/numplayers/tournament and extra variables, "
               "0-64 players, 0-8 teams, optional pid column, columns sliced into field sections with offsets (1-28 rows "
-              "per section), section marker bytes, 1-30 splitnum packets, challenge 0 / negative / boundary values; every "
-              "fourth case is query_vars"),
+              "per section), section marker bytes, 1-30 splitnum packets, challenge 0 / negative / boundary values; two cases "
+              "in three carry 1-6 field sections the client has no place for (Spec.Extra: kills_, time_on_, clan_, honor_t, "
+              "_ ... at random positions of the layout, row offsets 0-255, 0-28 values incl. typed field names and values "
+              "with underscores) - tag THM = inside the domain of C04_gs3_query_extra (Spec.wfX); damaged cases incl. "
+              "sections that are not allowed extra sections (score_total_, an empty value in the middle); every fourth "
+              "case is query_vars"),
 )
 
 DATA_HEAD = bytes.fromhex("0000000001") + b"splitnum\x00"
@@ -31,36 +35,6 @@ def fragment_groups(case):
             else:
                 i += 1
     return groups
-
-
-KNOWN_FIELDS = (b"player", b"score", b"ping", b"team", b"deaths", b"pid", b"skill")
-EXTRA_NAMES = (b"kills_", b"time_on_", b"clan_", b"rank_", b"honor_t", b"k_d_ratio_", b"x_")
-EXTRA_VALUES = (b"7", b"red_devils", b"a_b_c", b"x", b"-1", b"[TAG] name", b"\xc3\xa9t\xc3\xa9", b"1_t", b"_", b"9_")
-
-
-def decode_variants(valid, rnd):
-    """C04: the same exchange with one more field section in the last data packet: a per-player (or per-team) field the
-    reader has no place for (`kills_`, `time_on_`, `clan_` … — servers do send such columns), 1-4 values that may contain
-    underscores.  A reader of the format skips a field it does not know; response and requests are unchanged."""
-    import copy
-    if valid.notwf or not valid.want.startswith("OK") or rnd.random() < 0.5:
-        return []
-    c = valid.case()
-    if not c.script or c.script[0] == "X":
-        return []
-    ds = c.script[0]
-    idx = [i for i, d in enumerate(ds) if d is not None and d.startswith(DATA_HEAD)]
-    if not idx:
-        return []
-    values = [rnd.choice(EXTRA_VALUES) for _ in range(rnd.randrange(1, 5))]
-    section = rnd.choice(EXTRA_NAMES) + b"\x00" + bytes([rnd.choice([0, 0, 1, 2])]) + b"".join(v + b"\x00" for v in values) + b"\x00"
-    ds[idx[-1]] = ds[idx[-1]] + section
-    v = copy.copy(valid)
-    v.tags = dict(valid.tags)
-    v.tags["THM"] = "0"
-    v.id = valid.id + "x"
-    v.line = c.line(v.id)
-    return [v]
 
 
 # ---- C10: the retried unit is the whole exchange (handshake + data request + all packets)
